@@ -33,11 +33,21 @@ package v2
 //@     invariant -1 <= rangeindex && rangeindex < len(data.Proposers)
 //@     invariant forall k int :: 0 <= k && k <= rangeindex ==> data.Proposers[k] != nil
 //@   ensures result == nil ==> noNullRelays(e.Relays) && (forall k int :: 0 <= k && k < len(e.Proposers) ==> e.Proposers[k] != nil)
+//@ // C10: an account proposer is an ANCHORED regular expression: whatever the document gives, the expression that is
+//@ // compiled starts with ^ and ends with $ (so "Wallet 1/Account 1" does not also select "Wallet 1/Account 10")
+//@ // reSource(re): the expression a compiled regexp was compiled from
+//@ spec func reSource(re *regexp.Regexp) string
+//@ extern regexp.Compile
+//@   ensures result1 == nil ==> result0 != nil && reSource(result0) == expr
+//@ // fmt.Sprintf with a leading / trailing literal and one %s: the literal is there, and the other end is the argument's
+//@ axiom forall x string {sprintf("^%s", x)} :: strhasprefix(sprintf("^%s", x), "^") && (strhassuffix(x, "$") ==> strhassuffix(sprintf("^%s", x), "$"))
+//@ axiom forall x string {sprintf("%s$", x)} :: strhassuffix(sprintf("%s$", x), "$") && (strhasprefix(x, "^") ==> strhasprefix(sprintf("%s$", x), "^"))
 //@ func (*ProposerConfig).UnmarshalJSON
 //@   requires p != nil
 //@   loop 1
 //@     invariant forall a string {visited(1, a)} :: visited(1, a) ==> data.Relays[a] != nil
 //@   ensures result == nil ==> noNullProposerRelays(p)
+//@   ensures result == nil && !strhasprefix(data.Proposer, "0x") ==> p.Account != nil && strhasprefix(reSource(p.Account), "^") && strhassuffix(reSource(p.Account), "$")
 //@
 //@ func setRelayConfig
 //@   requires config != nil && relayConfig != nil
